@@ -26,6 +26,8 @@ structure Meta where
   command : Bytes
   args : List Bytes
   password : Bytes
+  env : List Bytes := []     -- the request's environment map as "key=value" strings (map order is not fixed)
+  workDir : Bytes := []      -- the request's working directory ("" = the agent's)
   deriving Repr
 
 inductive Verdict where
@@ -108,6 +110,22 @@ def validateAndAcquire (pwOK : Bytes → Bytes → Bool) (c : Cfg) (m : Meta) (s
     `exec.CommandContext(ctx, meta.Command, meta.Args...)` — the request's own command and arguments,
     unchanged. -/
 def processArgv (m : Meta) : List Bytes := m.command :: m.args
+
+/-- What else of the request reaches `exec.Cmd`, unvalidated (executor.go NewSession, pty_unix.go
+    NewPTYSession): `cmd.Dir = meta.WorkDir` when non-empty, and `cmd.Env` = the agent's own
+    environment followed by (PTY: `TERM=<tty.Term>` first) the request's `key=value` pairs; a
+    non-PTY session without request pairs leaves `cmd.Env` nil (inherit). -/
+structure ExecSurface where
+  argv : List Bytes
+  dir : Bytes
+  envInherited : Bool          -- cmd.Env is nil / a copy of os.Environ() followed by `envExtra`
+  envExtra : List Bytes
+  deriving Repr
+
+def execSurface (pty : Bool) (term : Bytes) (m : Meta) : ExecSurface :=
+  { argv := processArgv m, dir := m.workDir,
+    envInherited := !pty && m.env.isEmpty,
+    envExtra := (if pty then [("TERM=".toUTF8.toList) ++ term] else []) ++ m.env }
 
 /-! ### The session counter under concurrency
 
